@@ -1,6 +1,6 @@
 #!/bin/sh
 # usage: sweep.sh "<seeds>" tier
-for s in $1; do for p in C09 C10 C11 C12 C13 C14 C15 C16 C23 C32 C33 C17 C05 C19 C20 C21 C22 C35 C18 C36; do mkdir -p sw/$s/$p; PONYSIM_DEV_SWEEP=sw/$s/$p VERIF_SEED=$s VERIF_WORKERS=10 timeout 1500 /venv/bin/python -m ponysim check --property $p --tier $2 2>&1 | grep -v KNOWN-FINDING | grep "tier=\|VIOLATION\|key:\|HARNESS"; done; done
+for s in $1; do for p in C09 C10 C11 C12 C13 C14 C15 C16 C23 C32 C33 C17 C05 C19 C20 C21 C22 C35 C18 C36; do mkdir -p sw/$s/$p; PONYSIM_DEV_SWEEP=sw/$s/$p VERIF_SEED=$s VERIF_WORKERS=${SWEEP_WORKERS:-10} timeout 1500 /venv/bin/python -m ponysim check --property $p --tier $2 2>&1 | grep -v KNOWN-FINDING | grep "tier=\|VIOLATION\|key:\|HARNESS"; done; done
 python3 -c "
 import json,glob
 for f in sorted(glob.glob('sw/*/*/foreign_*.json')):
